@@ -7,6 +7,7 @@ toolchain go1.23.5
 require (
 	github.com/anishathalye/porcupine v1.3.0
 	github.com/ryogrid/SamehadaDB/lib v0.0.0
+	github.com/spaolacci/murmur3 v1.1.0
 	pgregory.net/rapid v1.3.0
 )
 
@@ -28,7 +29,6 @@ require (
 	github.com/ryogrid/bltree-go-for-embedding v1.0.11 // indirect
 	github.com/shirou/gopsutil v2.19.10+incompatible // indirect
 	github.com/sirupsen/logrus v1.6.0 // indirect
-	github.com/spaolacci/murmur3 v1.1.0 // indirect
 	go.uber.org/atomic v1.6.0 // indirect
 	go.uber.org/multierr v1.5.0 // indirect
 	go.uber.org/zap v1.15.0 // indirect
